@@ -246,6 +246,22 @@ def leaves_from_alphabet(seq, n_ids):
     return [make_leaf(k, d, c, nc, None, n_ids) for (k, d, c, nc) in seq]
 
 
+def zeroable_mask(leaves, n_ids):
+    """top-level entries whose value may be exactly zero without leaving
+    the support: means of centred Gaussian models, log-means of log-normal
+    models, covariate coefficients"""
+    out = []
+    for l in leaves:
+        nt = l.n_top(n_ids)
+        m = np.zeros(nt, dtype=bool)
+        base = n_per_dim(l, n_ids) * l.n_dim
+        if l.kind == 'L' or (l.kind == 'G' and l.centered):
+            m[:l.n_dim] = True
+        m[base:] = True
+        out.append(m)
+    return np.concatenate(out) if out else np.zeros(0, dtype=bool)
+
+
 def hierarchy_vector(rng, leaves, n_ids):
     """flat (bottom, top) vector in chi's published order + covariates"""
     h = Hierarchy(leaves, n_ids)
